@@ -249,6 +249,10 @@ func (d *Descriptor) readAsMapEntry(out Outputter, data []byte) (n int, err erro
 
 	l := len(data)
 
+	// Keys and values that are zero are not present in the data, but the
+	// JSON object still needs a name and a value for the entry.
+	var seenKey, seenValue bool
+
 	var offset int
 	for offset < l {
 		wt, index, n := plenccore.ReadTag(data[offset:])
@@ -276,6 +280,16 @@ func (d *Descriptor) readAsMapEntry(out Outputter, data []byte) (n int, err erro
 			continue
 		}
 
+		if elt == &d.Elements[0] {
+			seenKey = true
+		} else {
+			if !seenKey {
+				out.NameField("")
+				seenKey = true
+			}
+			seenValue = true
+		}
+
 		fl := l
 		if wt == plenccore.WTLength {
 			// For WTLength types we read out the length and ensure the data we
@@ -298,7 +312,57 @@ func (d *Descriptor) readAsMapEntry(out Outputter, data []byte) (n int, err erro
 		offset += n
 	}
 
+	if !seenKey {
+		out.NameField("")
+	}
+	if !seenValue {
+		d.Elements[1].writeZero(out)
+	}
+
 	return offset, nil
+}
+
+// writeZero outputs the value a field that is absent from the data stands
+// for: null if the field has explicit presence, the zero value otherwise.
+func (d *Descriptor) writeZero(out Outputter) {
+	if d.ExplicitPresence {
+		out.Raw("null")
+		return
+	}
+	switch d.Type {
+	case FieldTypeInt, FieldTypeFlatInt:
+		if d.LogicalType == LogicalTypeTimestamp {
+			out.Time(time.Time{})
+		} else {
+			out.Int64(0)
+		}
+	case FieldTypeUint:
+		out.Uint64(0)
+	case FieldTypeFloat32:
+		out.Float32(0)
+	case FieldTypeFloat64:
+		out.Float64(0)
+	case FieldTypeString:
+		out.String("")
+	case FieldTypeBool:
+		out.Bool(false)
+	case FieldTypeTime:
+		out.Time(time.Time{})
+	case FieldTypeSlice:
+		if d.isValidJSONMap() {
+			out.StartObject()
+			out.EndObject()
+		} else {
+			out.StartArray()
+			out.EndArray()
+		}
+	case FieldTypeStruct, FieldTypeJSONObject:
+		out.StartObject()
+		out.EndObject()
+	case FieldTypeJSONArray:
+		out.StartArray()
+		out.EndArray()
+	}
 }
 
 func (d *Descriptor) readAsStruct(out Outputter, data []byte) (n int, err error) {
